@@ -158,12 +158,37 @@ def _cls(name):
     return T._find_class(T._parse(SRC), name)
 
 
+KEEP = ("CURRENT_COMPUTED", "PROCESSING_SIGNALS")     # module globals a method may assign: part of the interface
+
+
+def _norm(fn):
+    """the function modulo what does not matter: local variables (and `except ... as` names) renamed v0, v1, ...
+    in order of first binding (pyexpr.local_names), the TEXT of exception messages replaced by '<msg>'; docstrings,
+    comments and formatting are not in the ast / are skipped by the translator.  Parameters and the module
+    globals CURRENT_COMPUTED / PROCESSING_SIGNALS keep their names."""
+    import copy
+
+    fn = copy.deepcopy(fn)
+    names = pyexpr.local_names(fn, KEEP)
+    for n in ast.walk(fn):
+        if isinstance(n, ast.ExceptHandler) and n.name and n.name not in names:
+            names.append(n.name)
+    mapping = {n: f"v{i}" for i, n in enumerate(names)}
+    fn = pyexpr._Renamer(mapping).visit(fn)
+    for n in ast.walk(fn):
+        if isinstance(n, ast.ExceptHandler) and n.name in mapping:
+            n.name = mapping[n.name]
+        if isinstance(n, ast.Raise) and isinstance(n.exc, ast.Call):
+            n.exc.args = [ast.Constant("<msg>") if isinstance(a, (ast.Constant, ast.JoinedStr)) else a for a in n.exc.args]
+    return ast.fix_missing_locations(fn)
+
+
 def _fn(cls, name, params):
     fn = T._find_func(_cls(cls), name)
     got = [a.arg for a in fn.args.args]
     if got != params:
         raise T.Broken(f"unexpected parameters of {cls}.{name}: {got}")
-    return fn
+    return _norm(fn)
 
 
 def _run(tr, fn, what):
@@ -189,8 +214,8 @@ def c_obs_get():
     atoms = dict(CUR_SOME)
     atoms["getattr(instance, self.private_name)"] = (f"({C}store st o nm)", "Z")
     prims = {
-        "CURRENT_COMPUTED._add_parent(instance, self.public_name, value)":
-            ("st", f"{C}add_parent prog st (sig_cur_get cur) ({C}SObs o nm) value"),
+        "CURRENT_COMPUTED._add_parent(instance, self.public_name, v0)":
+            ("st", f"{C}add_parent prog st (sig_cur_get cur) ({C}SObs o nm) v0"),
         "PROCESSING_SIGNALS.add(_hashable_signal(instance, self.public_name))":
             ("st", f"{C}upd_ps st ((o, nm) :: {C}ps st)"),
     }
@@ -215,17 +240,18 @@ def c_obs_set():
 def c_comp_get():
     fn = _fn("Computable", "__get__", ["self", "instance", "owner"])
     atoms = dict(CUR_SOME)
-    atoms["computed._value"] = ("(sig_cached st k)", "optZ")
-    atoms["new_value != old_value"] = ("(sig_changed old_value new_value)", "bool")
-    atoms["old_value != new_value"] = ("(sig_changed old_value new_value)", "bool")
-    atoms["new_value == old_value"] = ("(negb (sig_changed old_value new_value))", "bool")
-    atoms["old_value == new_value"] = ("(negb (sig_changed old_value new_value))", "bool")
+    # locals in binding order: v0 = the Computed, v1 = its cached value, v2 = the value returned by the call
+    atoms["v0._value"] = ("(sig_cached st k)", "optZ")
+    atoms["v2 != v1"] = ("(sig_changed v1 v2)", "bool")
+    atoms["v1 != v2"] = ("(sig_changed v1 v2)", "bool")
+    atoms["v2 == v1"] = ("(negb (sig_changed v1 v2))", "bool")
+    atoms["v1 == v2"] = ("(negb (sig_changed v1 v2))", "bool")
     prims = {
-        "computed = getattr(instance, self.private_name)": ("skip",),
-        "new_value = computed()": ("bind", "new_value", "Z", "call st k"),
-        "CURRENT_COMPUTED._add_parent(instance, self.public_name, new_value)":
-            ("st", f"{C}add_parent prog st (sig_cur_get cur) ({C}SComp k) new_value"),
-        "instance.notify(self.public_name, old_value, new_value, 'change')": ("st", f"{C}notify prog st ({C}SComp k)"),
+        "v0 = getattr(instance, self.private_name)": ("skip",),
+        "v2 = v0()": ("bind", "v2", "Z", "call st k"),
+        "CURRENT_COMPUTED._add_parent(instance, self.public_name, v2)":
+            ("st", f"{C}add_parent prog st (sig_cur_get cur) ({C}SComp k) v2"),
+        "instance.notify(self.public_name, v1, v2, 'change')": ("st", f"{C}notify prog st ({C}SComp k)"),
     }
 
     def ret(t, k):
@@ -260,7 +286,7 @@ def c_add_parent():
     return (f"Definition gen_add_parent (prog : list {C}cdef) (st : {C}state) (j : nat) (s : {C}src) (current_value : Z) : {C}state :=\n  {body}.")
 
 
-FOR_UNSUB = "for parent in self.parents:\n    parent.unobserve(All(), All(), self._set_dirty)"
+FOR_UNSUB = "for v0 in self.parents:\n    v0.unobserve(All(), All(), self._set_dirty)"
 
 
 def c_remove_parents():
@@ -273,25 +299,26 @@ def c_remove_parents():
     return (f"Definition gen_remove_parents (prog : list {C}cdef) (st : {C}state) (j : nat) : {C}state :=\n  {body}.")
 
 
-LOOP_SKELETON = """for parent in self.parents.keyrefs():
-    if (parent := parent()):
-        for name, old_value in self.parents[parent].items():
-            outer, CURRENT_COMPUTED = (CURRENT_COMPUTED, None)
+# locals of __call__ in binding order: v0 changed, v1 parent, v2 old, v3 name, v4 old_value, v5 outer, v6 new_value, v7 e
+LOOP_SKELETON = """for v1 in self.parents.keyrefs():
+    if (v1 := v1()):
+        for v3, v4 in self.parents[v1].items():
+            v5, CURRENT_COMPUTED = (CURRENT_COMPUTED, None)
             try:
-                new_value = getattr(parent, name)
+                v6 = getattr(v1, v3)
             finally:
-                CURRENT_COMPUTED = outer
+                CURRENT_COMPUTED = v5
             if COND:
-                changed = True
+                v0 = True
                 break
         else:
             continue
         break
     else:
-        changed = True
+        v0 = True
         break"""
-TRY_EVAL = ("try:\n    self._value = self.func(*self.args, **self.kwargs)\nexcept Exception as e:\n    raise e\n"
-            "finally:\n    CURRENT_COMPUTED = old")
+TRY_EVAL = ("try:\n    self._value = self.func(*self.args, **self.kwargs)\nexcept Exception as v7:\n    raise v7\n"
+            "finally:\n    CURRENT_COMPUTED = v2")
 
 
 def _call_fn():
@@ -305,7 +332,7 @@ def _loop(fn):
     loop = loops[0]
     tests = [n for n in ast.walk(loop) if isinstance(n, ast.If) and isinstance(n.test, ast.Compare)
              or isinstance(n, ast.If) and isinstance(n.test, (ast.BoolOp, ast.UnaryOp))]
-    tests = [n for n in tests if "new_value" in ast.unparse(n.test)]
+    tests = [n for n in tests if "v6" in ast.unparse(n.test) and "v4" in ast.unparse(n.test)]
     if len(tests) != 1:
         raise T.Broken(f"expected one test on new_value inside the comparison loop, found {len(tests)}")
     return loop, tests[0]
@@ -317,7 +344,7 @@ def c_cmp_changed():
         t = pyexpr.Tr().bexpr(test.test)
     except pyexpr.Unsupported as e:
         raise T.Broken(f"comparison test outside the translated subset: {e}") from None
-    return f"Definition gen_cmp_changed (new_value old_value : Z) : bool :=\n  {t}."
+    return f"Definition gen_cmp_changed (v6 v4 : Z) : bool :=\n  {t}."
 
 
 def c_call():
@@ -327,9 +354,9 @@ def c_call():
              "self._value": (f"({C}value st j)", "Z")}
     prims = {
         "self._first = False": ("st", f"{C}upd_first st ({C}updn ({C}first st) j false)"),
-        ast.unparse(loop): ("bind", "changed", "bool", "sig_loop changed (cmp st)"),
+        ast.unparse(loop): ("bind", "v0", "bool", "sig_loop v0 (cmp st)"),
         "self._remove_parents()": ("st", f"{C}remove_parents prog st j"),
-        "old = CURRENT_COMPUTED": ("skip",),
+        "v2 = CURRENT_COMPUTED": ("skip",),
         "CURRENT_COMPUTED = self": ("skip",),
         TRY_EVAL: ("st", "evalf st"),
         "self._is_dirty = False": ("st", "sig_mark st j false"),
@@ -340,7 +367,7 @@ def c_call():
 
 
 SET_SKELETON = [
-    "if not isinstance(value, Computed):\n    raise ValueError('value has to be a Computable instance')",
+    "if not isinstance(value, Computed):\n    raise ValueError('<msg>')",
     "setattr(instance, self.private_name, value)",
     "value.name = self.public_name",
     "value.owner = instance",
@@ -355,7 +382,8 @@ def _stmts(fn):
 
 
 def c_skeleton():
-    """what cannot be translated, verbatim: the for/else/break nest over weak references in __call__ (with the
+    """what cannot be translated, statement for statement MODULO the names of locals, exception message texts,
+    docstrings, comments and formatting (_norm): the for/else/break nest over weak references in __call__ (with the
     translated test cut out), the evaluation try/finally, Computable.__set__ (install = forced read),
     BaseObservable.__set__ (the notify Observable.__set__ calls through super())"""
     fn = _call_fn()
